@@ -62,11 +62,17 @@ def judge_events(run, family, module, events_path, label, shards=64, timeout=360
             if seen[k]:
                 chosen.append(seen[k].pop(0))
     want = {v["l"] for v in chosen}
-    repro = {}
+    repro, hang = {}, set()
     with open(events_path) as f:
         for i, line in enumerate(f, 1):
             if i in want:
-                repro[i] = json.loads(line)["repro"]
+                e = json.loads(line)
+                repro[i] = e["repro"]
+                if str(e.get("panic", "")).startswith("hang:"):
+                    hang.add(i)
+    # a call that does not return costs the whole case timeout again on every confirmation run: two of them are enough
+    keep_hang = set(sorted(hang)[:2])
+    chosen = [v for v in chosen if v["l"] not in hang or v["l"] in keep_hang]
     confirm(run, family, module, [(v, repro[v["l"]]) for v in chosen], env=env, race=race, shards=shards)
 
 
